@@ -95,13 +95,17 @@ func init() {
 			maxN, maxSlack, maxM := q(tier, 3, 5), q(tier, 1, 2), q(tier, 2, 3)
 			for n := 0; n <= maxN; n++ {
 				for slack := 0; slack <= maxSlack; slack++ {
-					for op := 0; op < 8; op++ {
+					for op := 0; op < 9; op++ {
 						if op == 0 {
 							for m := 0; m <= maxM; m++ {
 								out = append(out, cs("VH_C01_Step", n, slack, m, op))
 							}
 						} else {
 							out = append(out, cs("VH_C01_Step", n, slack, 0, op))
+							if slack == 0 && n >= 2 && op != 8 {
+								// duplicate and uncomparable element values
+								out = append(out, cs("VH_C01_Step", n, slack, 0, op, 1))
+							}
 						}
 					}
 				}
@@ -249,6 +253,7 @@ func init() {
 			for form := 0; form <= 4; form++ {
 				out = append(out, cs("VH_C13_Cond", form, 0), cs("VH_C13_Cond", form, 1))
 			}
+			out = append(out, cs("VH_C13_Unusable"))
 			return out
 		},
 		boundsText: map[string]string{
@@ -499,7 +504,10 @@ func init() {
 			var out []symx.CaseSpec
 			for n := 0; n <= q(tier, 2, 3); n++ {
 				for spread := 0; spread <= 1; spread++ {
-					for recv := 0; recv <= 1; recv++ {
+					for recv := 0; recv <= 2; recv++ {
+						if recv == 2 && n > 2 {
+							continue
+						}
 						out = append(out, cs("VH_C16_Flat", n, spread, recv))
 					}
 				}
@@ -572,7 +580,7 @@ func init() {
 			out = append(out, cs("VH_C20", 3, 2, 0, 1, 1, 0, 3, 0, 1, 1, 0, 3, 0, 1, 1, 0, 0))
 			out = append(out, cs("VH_C20", 3, 2, 0, 1, 1, 0, 5, 0, 1, 1, 0, 2))
 			out = append(out, cs("VH_C20", 2, 2, 3, 1, 1, 0, 3, 0, 1, 0, 0, 0))
-			for k := 0; k <= 10; k++ {
+			for k := 0; k <= 11; k++ {
 				out = append(out, cs("VH_C20_Named", k))
 			}
 			n := q(tier, 120, 1500)
@@ -643,7 +651,7 @@ func init() {
 				for mut := 0; mut <= 7; mut++ {
 					out = append(out, cs("VH_C05", 1, 4, mut, 0, 1, t, 1))
 				}
-				for mut := 0; mut <= 4; mut++ {
+				for mut := 0; mut <= 6; mut++ {
 					if t < 11 {
 						out = append(out, cs("VH_C05_Cond", t, mut))
 					}
@@ -781,6 +789,8 @@ func init() {
 			}
 			// a second SetMutex among the operations; an accept-all push policy installed
 			out = append(out, cs("VH_C10", 1, 2, 1, 9, 0, 0), cs("VH_C10", 1, 2, 1, 2, 0, 0, 1), cs("VH_C10", 1, 2, 1, 2, 2, 1, 1))
+			// whole-list operations against the ones that change the length
+			out = append(out, cs("VH_C10", 2, 2, 1, 10, 0, 0), cs("VH_C10", 3, 2, 1, 10, 0, 1))
 			if tier == "thorough" {
 				out = append(out, cs("VH_C10", 2, 2, 1, 4, 3, 0, 1))
 				out = append(out, cs("VH_C10", 1, 3, 1, 2, 0, 0), cs("VH_C10", 2, 3, 1, 2, 2, 1), cs("VH_C10", 1, 2, 2, 2, 0, 0), cs("VH_C10", 1, 2, 2, 2, 2, 1))
